@@ -136,3 +136,21 @@ package owa
 //@ wire owaParams
 //@   property C01 C03 C20
 //@   json Weights=weights
+
+// ---- registered names (what a request must say to select this object; what error messages list)
+//@ func (*OwaBiasListener).Identifier
+//@   property C07 C20
+//@   nopanic
+//@   ensures [name] result == "owa"
+
+// ---- importance of a criterion for OWA (C15): its values summed over the considered alternatives (the weights are positional)
+//@ spec owaImportance(l model.BiasListener, p *model.DecisionMakingParams, id string) real = model.cumw(p.ConsideredAlternatives, id, len(p.ConsideredAlternatives), model.WeightIdentity)
+//@ func (*OwaBiasListener).RankCriteriaAscending
+//@   property C15 C07 C16 C18 C19
+//@   refines model.BiasListener.RankCriteriaAscending with validParams=owaValid, coversId=owaCovers, imp=owaImportance
+//@   requires [distinct] model.distinctCriteria(params.Criteria)
+//@   ensures [every_criterion_once_ascending] result != nil && fresh(result) && fresh(*result) && len(*result) == len(params.Criteria)
+//@             && (forall k int :: 0 <= k && k < len(*result) ==> exists j int :: 0 <= j && j < len(params.Criteria) && (*result)[k].Criterion == params.Criteria[j])
+//@             && (forall i int, j int :: 0 <= i && i < j && j < len(*result) ==> (*result)[i].Id != (*result)[j].Id && (*result)[i].Weight <= (*result)[j].Weight)
+//@   ensures [importance_is_the_sum_of_values_over_the_considered_alternatives] forall k int :: 0 <= k && k < len(*result) ==> exists j int :: 0 <= j && j < len(params.Criteria) && (*result)[k].Criterion == params.Criteria[j]
+//@             && (*result)[k].Weight == old(model.cumw(params.ConsideredAlternatives, params.Criteria[j].Id, len(params.ConsideredAlternatives), model.WeightIdentity))
